@@ -423,9 +423,32 @@ class Fn:
             self._defs = d
         return self._defs
 
+    _SCALARS = {'bool', 'u8', 'u16', 'u32', 'u64', 'usize', 'i8', 'i16', 'i32', 'i64', 'isize'}
+
+    def mut_borrowed_scalars(self):
+        """scalar locals whose address is taken mutably (written through a pointer, e.g. by a closure)"""
+        if not hasattr(self, '_mbs_cache'):
+            pass
+        s = set()
+        for bi, b in enumerate(self.blocks):
+            if b['cu']:
+                continue
+            for st in b['s']:
+                rv = st[1]
+                if rv[0] == 'ref' and rv[1] and len(rv[2]) == 1 and self.locals[rv[2][0]][0] in self._SCALARS:
+                    s.add(rv[2][0])
+        return s
+
     def single_def(self, local):
         if 1 <= local <= self.argc:
             return None
+        if self.locals[local][0] in self._SCALARS:
+            mbs = self._expr_cache.get('__mbs__')
+            if mbs is None:
+                mbs = self.mut_borrowed_scalars()
+                self._expr_cache['__mbs__'] = mbs
+            if local in mbs:
+                return None
         ds = self.defs.get(local, [])
         if len(ds) == 1 and ds[0][0] in ('s', 'call'):
             return ds[0]
@@ -490,6 +513,8 @@ class Fn:
                 m = re.match(r'promoted = (-?\d+)_[iu](?:\d+|size)$', op[1])
                 if m:
                     val = int(m.group(1))
+                elif self.facts is not None:
+                    val = self.facts.const_val(norm(op[1][len('promoted = '):].strip()))
             return ('const', val, op[1], op[2])
         return ('unknown',)
 
@@ -1321,3 +1346,22 @@ def write_target(fn, place):
         return None
     e = fn.expr_of_place(place)
     return last_field(e) if strip(e)[0] == 'field' else None
+
+
+_CMP_METHODS = {'gt': 'Gt', 'lt': 'Lt', 'ge': 'Ge', 'le': 'Le', 'eq': 'Eq', 'ne': 'Ne'}
+
+
+def cmp_of(sw):
+    """(op, lhs, rhs) when the switch decides a comparison — native (BinaryOp) or through
+    PartialOrd / PartialEq method calls — else None.  Labels are True/False on the edges."""
+    if sw is None:
+        return None
+    if sw.kind == 'cmp':
+        return (sw.subject[1], sw.subject[2], sw.subject[3])
+    if sw.kind == 'bool':
+        e = sw.subject
+        if e[0] == 'call' and len(e[2]) == 2:
+            m = e[1].rsplit('::', 1)[-1]
+            if m in _CMP_METHODS and ('PartialOrd' in e[1] or 'PartialEq' in e[1] or 'cmp::impls' in e[1]):
+                return (_CMP_METHODS[m], e[2][0], e[2][1])
+    return None
